@@ -145,6 +145,8 @@ def _frame_rows(df):
     if df is None or df is MISSING:
         return None
     try:
+        if len(df) == 0:
+            return np.zeros((0, 0))
         return np.asarray(df, dtype=float).reshape(len(df), -1)
     except Exception:
         return None
@@ -270,3 +272,324 @@ def run_impl(case):
             rows.append(row)
     obs["rows"] = rows
     return obs
+
+
+# ------------------------------------------------------------------ independent specification (plain IEEE doubles)
+def py_round_exact(x):
+    """round-half-even of the exact rational value of the double x (what Python's round(x) returns)"""
+    fr = Fraction(x)
+    q, r = divmod(fr.numerator, fr.denominator)        # floor division, 0 <= r/den < 1
+    twice = 2 * r
+    if twice > fr.denominator or (twice == fr.denominator and q % 2 == 1):
+        q += 1
+    return q
+
+
+def isqrt_floor(w):
+    return math.isqrt(w)
+
+
+def np_pairwise_sum(xs):
+    """numpy's pairwise summation of a contiguous double vector (loops_utils.h.src)"""
+    n = len(xs)
+    if n < 8:
+        r = 0.0
+        for v in xs:
+            r = r + v
+        return r
+    if n <= 128:
+        r = list(xs[:8])
+        i = 8
+        while i + 8 <= n:
+            for k in range(8):
+                r[k] = r[k] + xs[i + k]
+            i += 8
+        res = ((r[0] + r[1]) + (r[2] + r[3])) + ((r[4] + r[5]) + (r[6] + r[7]))
+        for v in xs[i:]:
+            res = res + v
+        return res
+    h = n // 2
+    h -= h % 8
+    return np_pairwise_sum(xs[:h]) + np_pairwise_sum(xs[h:])
+
+
+def spec_edges(lo, hi, k):
+    if lo == hi:
+        lo, hi = lo - 0.5, hi + 0.5
+    delta = hi - lo
+    step = delta / float(k)
+    if step == 0:
+        es = [(float(j) / float(k)) * delta + lo for j in range(k)]
+    else:
+        es = [float(j) * step + lo for j in range(k)]
+    return es + [hi]
+
+
+def spec_hist(xs, k, lo, hi):
+    """np.histogram(xs, bins=k, range=(lo, hi), density=True) then division by the sum: (edges, density)"""
+    es = spec_edges(lo, hi, k)
+    counts = []
+    for j in range(k):
+        a, b = es[j], es[j + 1]
+        if j == k - 1:
+            counts.append(sum(1 for x in xs if a <= x <= b))
+        else:
+            counts.append(sum(1 for x in xs if a <= x < b))
+    tot = float(sum(counts))
+    with np.errstate(all="ignore"):
+        dens = [float(np.float64(c) / np.float64(es[j + 1] - es[j]) / np.float64(tot)) for j, c in enumerate(counts)]
+        s = np_pairwise_sum(dens)
+        return es, [float(np.float64(v) / np.float64(s)) for v in dens]
+
+
+def spec_inter(dr, dt):
+    m = [a if a < b else b for a, b in zip(dr, dt)]
+    return 1.0 - np_pairwise_sum(m)
+
+
+def pymax_list(xs):
+    m = xs[0]
+    for v in xs[1:]:
+        if v > m:
+            m = v
+    return m
+
+
+class SpecPH:
+    """page_hinkley.py with burn_in = 0, direction positive, in plain doubles"""
+    def __init__(self, delta, thr):
+        self.delta, self.thr = float(delta), float(thr)
+        self.total = 0
+        self.reset()
+
+    def reset(self):
+        self.since, self.ds = 0, None
+        self.mx = self.mn = self.sm = self.mean = 0.0
+        self.nrows, self.row = 0, None
+
+    def update(self, x):
+        if self.ds == "drift":
+            self.reset()
+        self.total += 1
+        self.since += 1
+        with np.errstate(all="ignore"):
+            self.mean = float(np.float64(self.mean) + (np.float64(x) - np.float64(self.mean)) / np.float64(self.since))
+        self.sm = self.sm + x - self.mean - self.delta
+        theta = self.thr * self.mean
+        if self.sm < self.mn:
+            self.mn = self.sm
+        if self.sm > self.mx:
+            self.mx = self.sm
+        diff = self.sm - self.mn
+        check = diff > theta
+        if check and self.since > 0:
+            self.ds = "drift"
+        self.nrows += 1
+        self.row = {"x": x, "sum": self.sm, "diff": diff, "theta": theta, "check": bool(check), "max": self.mx, "min": self.mn, "mean": self.mean}
+
+
+def spec_params(p):
+    w = p["window_size"]
+    return {"step": min(100, py_round_exact(p["sample_period"] * w)), "thr": py_round_exact(0.01 * w), "bins": isqrt_floor(w)}
+
+
+def spec_run(case, obs):
+    """the property as an executable specification; oracle values (number of components, projected scores, and for
+    'kl' the per-component Jensen-Shannon distances) are taken from the logged library calls.  Yields one expected row per update."""
+    p = case["params"]
+    w, inter, scaling = p["window_size"], p["divergence_metric"] == "intersection", p["online_scaling"]
+    sp = spec_params(p)
+    step, bins = sp["step"], sp["bins"]
+    mon = SpecPH(p["delta"], sp["thr"])
+    total = since = 0
+    ds, building = None, True
+    ref, test = [], []
+    npcs = None
+    rproj, tproj, lower, upper, dref = [], [], [], [], []
+    nscores, score = 1, 0.0
+    out = []
+    for i, r in enumerate(obs["rows"]):
+        if "error" in r:
+            out.append({"error": "ZeroDivisionError" if step == 0 and not building else None})
+            break
+        total += 1
+        since += 1
+        calls, e = [], {}
+        if building:
+            if ds is not None:
+                ref, test = test, []
+                if scaling:
+                    calls.append([C_INV, len(ref)])
+                since, ds = 0, None
+                mon.reset()
+            elif len(ref) < w:
+                ref = ref + [i]
+            elif len(test) < w:
+                test = test + [i]
+            if len(test) == w:
+                building = False
+                if scaling:
+                    calls += [[C_FIT_SCALE, w], [C_SCALE, w]]
+                calls += [[C_PCA_FIT, w], [C_PCA_TR, w], [C_PCA_TR, w]]
+                npcs, rproj, tproj = r.get("o_npcs"), r.get("o_rproj"), r.get("o_tproj")
+                if npcs is None or rproj is None or tproj is None:
+                    out.append({"missing": "PCA was not fitted / windows were not projected when the test window filled up"})
+                    break
+                rproj, tproj = [list(x) for x in rproj], [list(x) for x in tproj]
+                if inter:
+                    lower = [min(min(x[j] for x in rproj), min(x[j] for x in tproj)) for j in range(npcs)]
+                    upper = [max(max(x[j] for x in rproj), max(x[j] for x in tproj)) for j in range(npcs)]
+                    dref = [spec_hist([x[j] for x in rproj], bins, lower[j], upper[j]) for j in range(npcs)]
+                    e["lower"], e["upper"], e["dref"] = lower, upper, dref
+                else:
+                    calls += [[C_KDE, w]] * npcs
+        else:
+            nxt = r.get("o_next")
+            if nxt is None:
+                out.append({"missing": "the new observation was not projected in the monitoring phase"})
+                break
+            if scaling:
+                calls.append([C_SCALE, 1])
+            calls.append([C_PCA_TR, 1])
+            nxt = list(nxt)
+            if inter:
+                nxt = [lower[j] if nxt[j] < lower[j] else upper[j] if nxt[j] > upper[j] else nxt[j] for j in range(npcs)]
+            test = test[1:] + [i]
+            tproj = tproj[1:] + [nxt]
+            e["tproj_last"] = nxt
+            if step == 0:
+                out.append({"error": "ZeroDivisionError"})
+                break
+            if (total - 1) % step == 0 and total - 1 != 0:
+                if inter:
+                    dtest = [spec_hist([x[j] for x in tproj], bins, lower[j], upper[j]) for j in range(npcs)]
+                    comp = [spec_inter(dref[j][1], dtest[j][1]) for j in range(npcs)]
+                    e["dtest"] = dtest
+                else:
+                    comp = r.get("o_scores")
+                    calls += [[C_KDE, w]] * npcs + [[C_JS, w]] * npcs
+                    if comp is None or len(comp) != npcs:
+                        out.append({"missing": "no per-component Jensen-Shannon scores at a scheduled sample"})
+                        break
+                score = pymax_list(comp)
+                e["comp"] = comp
+                nscores += 1
+                mon.update(score)
+                if mon.ds is not None:
+                    building, ds = True, "drift"
+        e.update({"ds": ds, "total": total, "since": since, "building": building, "ref": list(ref), "test": list(test), "npcs": npcs,
+                  "nscores": nscores, "score": score, "calls": calls,
+                  "mon": {"ds": mon.ds, "total": mon.total, "since": mon.since, "nrows": mon.nrows, "row": mon.row}})
+        out.append(e)
+    return out
+
+
+# ------------------------------------------------------------------ direct property check (no Coq model)
+def _feq_list(a, b):
+    return a is not None and b is not None and len(a) == len(b) and all(feq(x, y) for x, y in zip(a, b))
+
+
+def _is_range_in(starts, idx):
+    """is the contiguous index list idx one of the ranges that match the window's content?"""
+    if not idx:
+        return True
+    return idx == list(range(idx[0], idx[0] + len(idx))) and idx[0] in starts
+
+
+def multiset_periodic(case):
+    return bool(case.get("periodic"))
+
+
+def direct_check(case, obs):
+    if "__exception__" in obs:
+        return [f"PCACD raised {obs['__exception__']}: {obs.get('__message__')}"]
+    p = case["params"]
+    w = p["window_size"]
+    sp = spec_params(p)
+    msgs = []
+    # constructor attributes against exact round-half-even of the double products
+    if obs["step"] != sp["step"]:
+        msgs.append(f"step = {obs['step']!r}, but min(100, round(sample_period * window_size)) = {sp['step']} (exact round-half-even of the double product)")
+    if obs["ph_threshold"] != sp["thr"]:
+        msgs.append(f"ph_threshold = {obs['ph_threshold']!r}, but round(0.01 * window_size) = {sp['thr']}")
+    if obs["bins"] != sp["bins"]:
+        msgs.append(f"bins = {obs['bins']!r}, but floor(sqrt(window_size)) = {sp['bins']}")
+    mp = obs["mon_params"]
+    if not (feq(mp[0], p["delta"]) and mp[1] == sp["thr"] and mp[2] == 0 and mp[3] == "positive"):
+        msgs.append(f"embedded Page-Hinkley built with (delta, threshold, burn_in, direction) = {mp}, expected ({p['delta']}, {sp['thr']}, 0, 'positive')")
+    if msgs:
+        return msgs
+    exp = spec_run(case, obs)
+    inter = p["divergence_metric"] == "intersection"
+    for i, (r, e) in enumerate(zip(obs["rows"], exp)):
+        if "missing" in e:
+            return [f"update {i}: {e['missing']}"]
+        if "error" in r or "error" in e:
+            if r.get("error") != e.get("error"):
+                return [f"update {i}: implementation raised {r.get('error')}, specification says {e.get('error')}"]
+            return [f"update {i}: ZeroDivisionError: step = min(100, round({p['sample_period']} * {w})) = 0, the schedule (total_samples - 1) % step cannot be evaluated"]
+        where = f"PCACD {p} update {i} (total_samples {r['total']})"
+        for k, nm in (("ds", "drift_state"), ("total", "total_samples"), ("since", "samples_since_reset")):
+            if r[k] != e[k]:
+                return [f"{where}: {nm} = {r[k]!r}, specification says {e[k]!r}"]
+        # silent until both windows are full
+        if r["ds"] is not None:
+            j = i
+            while j > 0 and obs["rows"][j - 1]["ds"] is None:
+                j -= 1
+            first_epoch = j == 0
+            if (first_epoch and r["total"] <= 2 * w) or (not first_epoch and r["since"] <= w):
+                return [f"{where}: drift reported before reference and test windows were full"]
+        if r["num_pcs"] != e["npcs"]:
+            return [f"{where}: num_pcs = {r['num_pcs']!r}, but the PCA fitted on the reference window has {e['npcs']!r} components"]
+        if r["calls"] != e["calls"]:
+            return [f"{where}: library calls (kind, rows) {r['calls']}, specification says {e['calls']}"]
+        if r["building"] is not None and r["building"] != e["building"]:
+            return [f"{where}: phase flag _build_reference_and_test = {r['building']}, specification says {e['building']}"]
+        if r["nscores"] is not None:
+            if r["nscores"] != e["nscores"]:
+                return [f"{where}: {r['nscores'] - 1} change scores computed so far, the schedule (total-1) % step == 0 says {e['nscores'] - 1}"]
+            if not feq(r["score"], e["score"]):
+                return [f"{where}: last change score {r['score']!r}, specification (max over components) says {e['score']!r}"]
+            if inter and multiset_periodic(case) and r["nscores"] > 1 and r["score"] != 0.0:
+                return [f"{where}: the test window equals the reference window (as a multiset of rows) but the intersection change score is {r['score']!r}, not 0"]
+        for nm in ("ref", "test"):
+            ln = r.get(nm + "_len")
+            if ln is None:
+                continue
+            if ln != len(e[nm]):
+                return [f"{where}: {nm} window holds {ln} rows, specification says {len(e[nm])}"]
+            if ln and not _is_range_in(r.get(nm + "_starts", []), e[nm]):
+                return [f"{where}: {nm} window content is the stream rows starting at {r.get(nm + '_starts')}, specification says rows {e[nm][0]}..{e[nm][-1]}"]
+        m, em = r.get("mon"), e["mon"]
+        if m is not None:
+            for k in ("ds", "total", "since"):
+                if m[k] != em[k]:
+                    return [f"{where}: embedded Page-Hinkley {k} = {m[k]!r}, specification says {em[k]!r}"]
+            if "nrows" in m:
+                if m["nrows"] != em["nrows"]:
+                    return [f"{where}: embedded Page-Hinkley history has {m['nrows']} rows, specification says {em['nrows']}"]
+                if m["nrows"] and "row" in m:
+                    for k, v in m["row"].items():
+                        ev = em["row"][k]
+                        if (v != ev) if isinstance(v, bool) else not feq(v, ev):
+                            return [f"{where}: embedded Page-Hinkley {k} = {v!r}, specification says {ev!r} (score {em['row']['x']!r})"]
+        if (r["ds"] == "drift") != (em["ds"] is not None):
+            return [f"{where}: drift_state {r['ds']!r} but the Page-Hinkley monitor's state is {em['ds']!r}"]
+        if inter:
+            for k in ("lower", "upper"):
+                if k in r and k in e and not _feq_list(r[k], e[k]):
+                    return [f"{where}: {k} = {r[k]}, per-component supports of the projected windows are {e[k]}"]
+            for k in ("dref", "dtest"):
+                if r.get(k) is not None and k in e:
+                    for j, (a, (ee, dd)) in enumerate(zip(r[k], e[k])):
+                        if not _feq_list(a["edges"], ee):
+                            return [f"{where}: component {j}: {k} histogram edges {a['edges']} are not the {sp['bins']} equal bins on the component's own support [{e.get('lower', ['?'] * 9)[j] if k == 'dref' else ee[0]}, ..]: {ee}"]
+                        if not _feq_list(a["density"], dd):
+                            return [f"{where}: component {j}: {k} histogram {a['density']}, specification {dd}"]
+                    # same edges for reference and test histograms of a component
+            if "tproj_last" in r and "tproj_last" in e and not _feq_list(r["tproj_last"], e["tproj_last"]):
+                return [f"{where}: newest row of the test projection {r['tproj_last']}, winsorised projection is {e['tproj_last']}"]
+    if len(obs["rows"]) != len(exp):
+        return [f"{len(obs['rows'])} updates observed, specification produced {len(exp)} rows"]
+    return []
